@@ -114,6 +114,9 @@ type Session struct {
 	// OnOpStart is called by the session just before the API call under test
 	// (after navigation to the entry point).
 	OnOpStart func()
+	// Outer, when set, is applied to the wrapped target root before it is
+	// given to the browser (e.g. to put a nodeutil.Extend around it).
+	Outer func(n interface{}) interface{}
 	// FaultFilter, when set, says whether the kind applies to the event; a
 	// fault scheduled on an inapplicable callback degrades to FError.
 }
